@@ -227,3 +227,5 @@ def run(ctx):
                  'a copy length that ignores the remaining length reads past the caller\'s buffer and makes output depend on adjacent memory')
     c01.cursor_rule(P, r, 'prepare_fragments_for_encode', 'src')
     r.require_min(1)
+    ctx.borrow('c03', ['R03b', 'R03c'], 'a supplied destination fragment is an input: it is copied out, never rewritten')
+    ctx.borrow('c14', ['R14f'], 'encode on one instance must not depend on other instances having been created or destroyed: the shared GF tables are reference counted')
